@@ -18,7 +18,7 @@ RULE = ("random configurations (MAC; self-IP set absent or 1-6 mixed v4/v6 addre
         "answerable contents (ARP request, echo v4/v6, NS, SYN, UDP STUN with and without CHANGE-REQUEST (change-ip / change-port), DNS) sent to: every member of the authorised "
         "MAC set, every single-bit flip of each member, unmasked RFC 1112 mappings, solicited-node MACs of foreign "
         "addresses, random MACs; destination IPs in / one bit off / outside the self-IP set and multicast; sources in "
-        "/ one bit off the deny set; every EtherType; every IP protocol number (v4 and v6). Non-trivial = out-of-scope "
+        "/ one bit off the deny set; every EtherType; answerable content behind 802.1Q/802.1ad/MPLS/PPPoE encapsulation; multicast MAC mappings of the other address family; every IP protocol number (v4 and v6). Non-trivial = out-of-scope "
         "(or reply-source-constrained) case whose in-scope control twin was answered under the permissive "
         "configuration; distinct = distinct (scope reason, template, configuration, frame).")
 ASSUME = ["'handled IP address' = member of the configured self-IP set (any address when the set is absent)",
@@ -150,6 +150,14 @@ def build_cases(ctx, cfg, sweep):
             for a in s4:
                 macs.append(bytes([0x01, 0x00, 0x5E, a[1] | 0x80, a[2], a[3]]))     # RFC 1112 without the 23-bit mask
                 macs.append(bytes([0x01, 0x00, 0x5E, a[0] & 0x7F, a[1], a[2]]))     # wrong octets
+                # mapping of the other address family applied to this address's low-order bits
+                macs.append(b"\x33\x33\xff" + a[1:4])
+                macs.append(b"\x33\x33\xff" + bytes([a[1] & 0x7F]) + a[2:4])
+                macs.append(b"\x33\x33" + a)
+            for a in s6:
+                macs.append(b"\x01\x00\x5e" + a[13:16])
+                macs.append(b"\x01\x00\x5e" + bytes([a[13] & 0x7F]) + a[14:16])
+                macs.append(b"\x33\x33" + a[12:16])                                  # RFC 2464 mapping of the unicast address itself
             for _ in range(3):
                 foreign = gen.rnd_ip6(rng)
                 macs.append(pkt.solicited_mac(foreign))
@@ -180,7 +188,14 @@ def build_cases(ctx, cfg, sweep):
                 cases.append((name + "/deny", fn(pkt.BCAST, cm, a, sip), control))
                 for nb in one_bit_neighbours(rng, a, 3):
                     cases.append((name + "/denynb", fn(cfg.mac, cm, nb, sip), control))
-    # 4. EtherType / protocol-number sweeps (answerable content under a wrong number)
+    # 4. link-layer encapsulations the responder does not implement (VLAN tags, MPLS, PPPoE) around answerable content
+    for nm, fn in t4 + t6:
+        v6 = nm.endswith("6") or nm.endswith("6t")
+        S = s6 if v6 else s4
+        good = fn(cfg.mac, cm, clean_src(v6), rng.choice(S) if S else (gen.rnd_ip6(rng) if v6 else gen.rnd_ip4(rng)))
+        for f in gen.encapsulated(rng, good):
+            cases.append(("sweep/encap", f, good))
+    # 5. EtherType / protocol-number sweeps (answerable content under a wrong number)
     if sweep:
         sip4 = rng.choice(s4) if s4 else gen.rnd_ip4(rng)
         sip6 = rng.choice(s6) if s6 else gen.rnd_ip6(rng)
